@@ -144,7 +144,7 @@ def worker(sh):
 
 def run(ctx):
     O.selftest(random.Random(ctx.seed))
-    cfgs = ['prod', 'san', 'p32'] if ctx.quick else ['prod', 'san', 'p64', 'p32', 'p32-san']
+    cfgs = ['prod', 'san', 'p32', 'p64-O0'] if ctx.quick else ['prod', 'san', 'p64', 'p32', 'p32-san', 'p64-O0', 'gcc-p64']
     exes = session.build_exes({c: (c, 'scheme_drv.cpp', []) for c in cfgs})
     session.run_shards(ctx, worker, 16, exes, {'cfgs': cfgs})
     ctx.rule = ('events: one LQ-IBE setup/keygen/encrypt/decrypt with the caller-supplied hash function acting as recorder of the bytes it is handed; oracle: same bytes on both sides '
